@@ -69,21 +69,36 @@ class ColumnQuery(Query):
             return NullMatcher()
 
         creader = reader.column_reader(fieldname)
-        return ColumnMatcher(creader, comp)
+        is_deleted = reader.is_deleted if reader.has_deletions() else None
+        return ColumnMatcher(creader, comp, is_deleted=is_deleted)
 
 
 class ColumnMatcher(ConstantScoreMatcher):
-    def __init__(self, creader, condition):
+    def __init__(self, creader, condition, is_deleted=None, position=0):
+        ConstantScoreMatcher.__init__(self)
         self.creader = creader
         self.condition = condition
-        self._i = 0
+        # A function that returns True if a doc number is deleted, or None
+        self.is_deleted = is_deleted
+        self._i = position
         self._find_next()
+
+    def copy(self):
+        return self.__class__(self.creader, self.condition, self.is_deleted,
+                              self._i)
+
+    def go_inactive(self):
+        self._i = len(self.creader)
 
     def _find_next(self):
         condition = self.condition
         creader = self.creader
+        is_deleted = self.is_deleted
 
-        while self._i < len(creader) and not condition(creader[self._i]):
+        while self._i < len(creader):
+            if not (is_deleted and is_deleted(self._i)):
+                if condition(creader[self._i]):
+                    break
             self._i += 1
 
     def is_active(self):
@@ -104,7 +119,10 @@ class ColumnMatcher(ConstantScoreMatcher):
 
     def all_ids(self):
         condition = self.condition
+        is_deleted = self.is_deleted
         for docnum, v in enumerate(self.creader):
+            if is_deleted and is_deleted(docnum):
+                continue
             if condition(v):
                 yield docnum
 
@@ -114,4 +132,5 @@ class ColumnMatcher(ConstantScoreMatcher):
     def skip_to_quality(self, minquality):
         if self._score <= minquality:
             self._i = len(self.creader)
-            return True
+            return 1
+        return 0
